@@ -472,6 +472,10 @@ class Interp:
             if isinstance(a, Ptr) and isinstance(b, Ptr) and a.obj == b.obj:
                 x, y = a.off, b.off
                 return int({'ult': x < y, 'ule': x <= y, 'ugt': x > y, 'uge': x >= y, 'slt': x < y, 'sle': x <= y, 'sgt': x > y, 'sge': x >= y}[pred])
+            if isinstance(a, Ptr) and isinstance(b, Ptr):
+                # different objects: any fixed total order serves ordered containers keyed by pointers (allocation order here)
+                x, y = (a.obj, a.off), (b.obj, b.off)
+                return int({'ult': x < y, 'ule': x <= y, 'ugt': x > y, 'uge': x >= y, 'slt': x < y, 'sle': x <= y, 'sgt': x > y, 'sge': x >= y}[pred])
             raise Unsupported('ptr compare %s %r %r' % (pred, a, b))
         if a is UNDEF or b is UNDEF: return 0
         if not is_sym(a) and not is_sym(b):
